@@ -52,4 +52,84 @@ CHECKS.update({
           "and translation must be strictly increasing inside each fragment (fragments = Add calls of the corresponding model)."),
     note=COMMON_NOTE, design="DESIGN.md section 7 C16"),
 })
+RENDER_NOTE = ("trusts the Coq kernel, the hand-written Gallina models, extraction, the harness, and the denotation in vlib/gen_tmpl.py as the "
+               "reading of the documented template semantics; Go's execution of the emitted statements is trusted (validated by rendering)")
+PROXY_NOTE = ("trusts the Coq kernel, the hand-written proxy model, the recording fakes of harness/overlay/internal/verifx/proxyrun, and the real "
+              "compiler as the reference for expected payloads and position maps; JSON-RPC transport and gopls are outside")
+
+CHECKS.update({
+ "C01": dict(
+    technique="Coq compiler model + correspondence; denotation oracle on the real compile-build-render pipeline",
+    text=("Grammar-generated templates covering every documented construct and syntactic variant are compiled by the real compiler, built "
+          "with go build and rendered for adversarial environments; the bytes must equal the structural denotation; the Coq compiler model "
+          "must produce the same tree and generated text for the same files."),
+    note=RENDER_NOTE, design="DESIGN.md section 7 C01"),
+ "C02": dict(
+    technique="Coq proof of the escaping function (alphabet, round trip, injectivity) + denotation and tokenizer oracles on rendered output",
+    text=("html_escape is proved for every byte string to emit no < > quote characters and to decode back to the value; the model of the "
+          "function is tied to goht.EscapeString; on the real pipeline every dynamic site in every context is rendered with adversarial "
+          "values and compared both with the denotation and, through an independent tokenizer, with the run for neutral placeholders."),
+    note=RENDER_NOTE, design="DESIGN.md section 7 C02"),
+ "C03": dict(category="translation_validation",
+    technique="translation validation of generated code (gofmt + go build per package, ill-typed variants must fail) + Coq compiler model correspondence",
+    text=("Go's type checker is not modelled; every generated file is validated: parsed and formatted by gofmt and type-checked by go build "
+          "in its own package with the file's declarations and the runtime; for every kind of dynamic site a wrong-typed fragment must be "
+          "refused by the Go compiler."),
+    note=RENDER_NOTE, design="DESIGN.md section 7 C03"),
+ "C04": dict(
+    technique="Coq proof of the Go-quoting round trip on the model + per-position literal oracle on the real pipeline",
+    text=("For each static-content position and strings over the property's alphabet the generated file must build and Render must reproduce "
+          "the literal (entity-decoded where the position escapes); the models of strconv.Quote / Unquote are tied to the Go functions."),
+    note=RENDER_NOTE, design="DESIGN.md section 7 C04"),
+ "C05": dict(
+    technique="Coq model of the children slot + lexically scoped denotation oracle on generated call graphs",
+    text=("Generated call graphs (layouts using children 0/1/2 times, nested renders in blocks, forwarding, child-less calls under layouts, "
+          "bounded recursion) are rendered by the real pipeline and compared with a lexically scoped denotation."),
+    note=RENDER_NOTE, design="DESIGN.md section 7 C05"),
+ "C08": dict(
+    technique="Coq invariant over the proxy state machine + exhaustive short and random long histories against the real proxy",
+    text=("All histories up to a length bound and random longer ones of open / change / close / save over template and plain URIs are driven "
+          "through the real proxy between recording fakes; every downstream payload must be the fresh compilation of the current buffer under "
+          "the generated URI with language go and the same version; position probes check that the map in use belongs to that code."),
+    note=PROXY_NOTE, design="DESIGN.md section 7 C08"),
+ "C09": dict(
+    technique="Coq model of position/range translation + per-method oracle recomputed from the real source map",
+    text=("Every overridden method is called at mapped and unmapped positions with scripted answers (ranges in mapped text, boilerplate, other "
+          "generated files, plain Go files); the downstream position and every returned range/URI are compared with the translation "
+          "recomputed from the real map."),
+    note=PROXY_NOTE, design="DESIGN.md section 7 C09"),
+ "C12": dict(
+    technique="Coq model of the emitter's error handling + single-fault enumeration on the real pipeline",
+    text=("For generated call graphs each failing site (dynamic expression, helper given an unsupported value, nested template, children "
+          "block) and the final write (failure and short write) is failed in turn; Render must return an error wrapping the cause with nothing "
+          "written, or nil with the complete document in one write."),
+    note=RENDER_NOTE, design="DESIGN.md section 7 C12"),
+ "C13": dict(
+    technique="Coq model of the buffer pool discipline + histories and 16-goroutine runs under the race detector",
+    text=("A pool of generated templates is rendered in random histories interleaving successful, failing and very large renders and "
+          "concurrently from 16 goroutines under the race detector; every result must equal the template's isolated output."),
+    note=RENDER_NOTE + "; 'no data race' is a statement about the Go memory model: race-detector runs are supporting evidence", design="DESIGN.md section 7 C13"),
+ "C14": dict(
+    technique="Coq model of the whitespace regexp tied to Buffer.Bytes + layout oracle with out-of-band markers",
+    text=("Templates with > < >< <> in every structural position are rendered and compared with a layout denotation whose markers are out of "
+          "band; the Coq model of the regexp pass is compared with Buffer.Bytes on thousands of strings around the markers."),
+    note=RENDER_NOTE, design="DESIGN.md section 7 C14"),
+ "C17": dict(
+    technique="Coq model of the diagnostics cache + interleaved histories against the real proxy (delivery at every call boundary)",
+    text=("Histories interleave valid/invalid buffer changes with diagnostic publications and messages of the Go language server, with the "
+          "other connection's message delivered while an outgoing call is in progress; every notification to the editor is checked for URI, "
+          "translated ranges, presence and position of the compiler's error."),
+    note=PROXY_NOTE, design="DESIGN.md section 7 C17"),
+ "C18": dict(
+    technique="Coq model of the generate command over an abstract file system + real binary on scratch trees",
+    text=("The real goht binary runs on random directory trees x flags x histories of runs with edits in between; the resulting tree is "
+          "compared with the tree the property prescribes, computed with the real compiler and gofmt."),
+    note="trusts the Coq kernel, the model Cli/Generate.v, the harness; file-system races, --watch and signals are outside", design="DESIGN.md section 7 C18"),
+ "C20": dict(
+    technique="Coq model of addImport + apply-and-recompile oracle on every head layout",
+    text=("For every file-head layout x package path x completion detail form the edit returned by the real proxy is applied to the template, "
+          "which must still compile, declare the previous imports plus the new one (as the real lexer reads them) and leave the templates' "
+          "generated code unchanged."),
+    note=PROXY_NOTE, design="DESIGN.md section 7 C20"),
+})
 NOT_YET = {}
